@@ -22,6 +22,11 @@ type State struct {
 	Key     string // implementation abstract key
 	EOFOut  *mach.Out
 	Level   int
+	Stale   string
+	// Alts are further witnesses that reach the same abstract state with a
+	// different stale fingerprint (merge audit).
+	Alts  [][]byte
+	stale map[string]bool
 }
 
 // Sym is one input symbol: a byte, or a macro (several bytes that only matter
@@ -66,6 +71,7 @@ type Explorer struct {
 	NoRef    bool // do not prune on reference death (SEN machines)
 	States   []*State
 	index    map[string]*State
+	pending  []auditItem
 	NTrans   int64
 	NRuns    int64
 	CutDepth int64
@@ -78,6 +84,15 @@ type Explorer struct {
 	// Expand decides whether a (both-alive) target is expanded; nil = always.
 	Harness   []string
 	MaxStates int
+	// Alt is the number of alternative witnesses (distinct stale fingerprints) kept
+	// per state for the merge audit; 0 disables it.
+	Alt int
+	// OnAudit is called when an alternative witness of a state behaves differently
+	// from its primary witness for a symbol (the abstract key is too coarse here:
+	// control flow depends on a field it treats as dead).
+	OnAudit         func(s *State, alt []byte, sym Sym, primary, got string)
+	Audits          int64
+	AuditMismatches int64
 }
 
 // Run performs the search.
@@ -89,19 +104,126 @@ func (e *Explorer) Run() {
 	root.Key = lastKey(o)
 	root.EOFOut = o
 	e.add(root)
-	for i := 0; i < len(e.States); i++ {
-		if e.Stop != nil && e.Stop() {
+	next := 0
+	for {
+		for ; next < len(e.States); next++ {
+			if e.Stop != nil && e.Stop() {
+				return
+			}
+			if e.MaxStates > 0 && len(e.States) >= e.MaxStates {
+				return
+			}
+			s := e.States[next]
+			for b := 0; b < 256; b++ {
+				e.step(s, Sym{Bytes: []byte{byte(b)}})
+			}
+			for _, mc := range Macros {
+				e.step(s, mc)
+			}
+		}
+		if len(e.pending) == 0 {
 			return
 		}
-		if e.MaxStates > 0 && len(e.States) >= e.MaxStates {
-			return
+		// merge audit of the alternative witnesses collected so far; it may add states
+		items := e.pending
+		e.pending = nil
+		for _, it := range items {
+			if e.Stop != nil && e.Stop() {
+				return
+			}
+			e.audit(it.s, it.alt)
 		}
-		s := e.States[i]
+	}
+}
+
+type auditItem struct {
+	s   *State
+	alt []byte
+}
+
+func lastStale(o *mach.Out) string {
+	if len(o.Stales) == 0 {
+		return ""
+	}
+	return o.Stales[len(o.Stales)-1]
+}
+
+// audit re-runs every single-byte symbol from each alternative witness of s
+// and compares (dead?, successor key) with what the primary witness gave.
+// A successor with an unseen key becomes a state of its own, so behaviour
+// that hides behind a stale field is explored and not just flagged.
+func (e *Explorer) audit(s *State, alt []byte) {
+	{
 		for b := 0; b < 256; b++ {
-			e.step(s, Sym{Bytes: []byte{byte(b)}})
-		}
-		for _, mc := range Macros {
-			e.step(s, mc)
+			sym := Sym{Bytes: []byte{byte(b)}}
+			input := append(append(make([]byte, 0, len(alt)+1), alt...), byte(b))
+			o := e.M.FeedFrom(mach.Bytewise(input), e.Cfg, true, false, len(input))
+			e.NRuns++
+			e.Audits++
+			got := "dead"
+			n := len(input)
+			switch {
+			case o.Panic != nil:
+				got = "panic"
+			case !o.Failed() || o.ErrChunk >= n:
+				got = lastKey(o)
+			}
+			pin := append(append(make([]byte, 0, len(s.Witness)+1), s.Witness...), byte(b))
+			po := e.M.FeedFrom(mach.Bytewise(pin), e.Cfg, true, false, len(pin))
+			e.NRuns++
+			want := "dead"
+			switch {
+			case po.Panic != nil:
+				want = "panic"
+			case !po.Failed() || po.ErrChunk >= len(pin):
+				want = lastKey(po)
+			}
+			if got == want {
+				// same behaviour; the stale field may travel on: hand the
+				// successor an alternative witness too
+				if got != "dead" && got != "panic" {
+					ref := s.Ref.Clone()
+					ref.Step(byte(b))
+					if to, ok := e.index[e.ident(got, ref)]; ok && to != s {
+						st := lastStale(o)
+						if len(to.Alts) < e.Alt && st != to.Stale && !to.stale[st] {
+							if to.stale == nil {
+								to.stale = map[string]bool{}
+							}
+							to.stale[st] = true
+							to.Alts = append(to.Alts, input)
+							e.pending = append(e.pending, auditItem{to, input})
+						}
+					}
+				}
+				continue
+			}
+			e.AuditMismatches++
+			if e.OnAudit != nil {
+				e.OnAudit(s, alt, sym, want, got)
+			}
+			if got == "dead" {
+				continue
+			}
+			ref := s.Ref.Clone()
+			ref.Step(byte(b))
+			t := &Trans{From: s, Sym: sym, Input: input, Out: o, Ref: ref, Key: got}
+			if got == "panic" {
+				t.Key = ""
+			} else if (e.NoRef || ref.Alive()) && (e.NoRef || ref.Depth() <= e.D) {
+				k := e.ident(got, ref)
+				if to, ok := e.index[k]; ok {
+					t.To = to
+				} else {
+					to = &State{Witness: input, Ref: ref, Key: got, EOFOut: o, Level: s.Level + 1, Stale: lastStale(o)}
+					e.add(to)
+					t.To = to
+				}
+			}
+			e.NTrans++
+			if e.OnTrans != nil {
+				e.OnTrans(t)
+			}
 		}
 	}
 }
@@ -165,10 +287,19 @@ func (e *Explorer) step(s *State, sym Sym) {
 	}
 	if expand {
 		k := e.ident(t.Key, t.Ref)
+		st := lastStale(o)
 		if to, ok := e.index[k]; ok {
 			t.To = to
+			if e.Alt > 0 && len(to.Alts) < e.Alt && st != to.Stale && !to.stale[st] {
+				if to.stale == nil {
+					to.stale = map[string]bool{}
+				}
+				to.stale[st] = true
+				to.Alts = append(to.Alts, input)
+				e.pending = append(e.pending, auditItem{to, input})
+			}
 		} else {
-			to = &State{Witness: input, Ref: t.Ref, Key: t.Key, EOFOut: o, Level: s.Level + 1}
+			to = &State{Witness: input, Ref: t.Ref, Key: t.Key, EOFOut: o, Level: s.Level + 1, Stale: st}
 			e.add(to)
 			t.To = to
 		}
